@@ -794,6 +794,7 @@ impl GRLParser {
 
     fn parse_not_condition(&self, clause: &str) -> Result<ConditionGroup> {
         let inner_clause = clause
+            .trim_start()
             .strip_prefix('!')
             .ok_or_else(|| RuleEngineError::ParseError {
                 message: format!("Expected '!' prefix in NOT condition: {}", clause),
